@@ -864,7 +864,7 @@ func (r *c13Run) execute() {
 	}
 	r.tr.Lock()
 	r.log(map[string]interface{}{"ev": "Reset", "sched": r.sc.ID, "src": r.sc.Src, "T": int(r.sc.T), "peers": peers, "vals": vals,
-		"tmax": r.ch.tmax})
+		"tmax": r.ch.tmax, "nilAt": r.in.Vals.NilAt})
 	r.tr.Unlock()
 	quiet := 36 * time.Millisecond
 	stable := true
@@ -975,6 +975,9 @@ func TestVerifC13(t *testing.T) {
 	}
 	if in.Par <= 0 {
 		in.Par = 8
+	}
+	if in.Vals.NilAt == nil {
+		in.Vals.NilAt = []int64{}
 	}
 	peerTimeout = time.Hour // the timer never fires by itself; Timeout(p) calls bpPeer.onTimeout directly
 	ch := c13GenChain(in.Vals, in.Tmax)
